@@ -169,7 +169,9 @@ func c16Round3(c *Ctx) {
 		}
 		m0++
 		bodies := []*ssa.Function{fn}
-		for _, call := range an.CallsIn(fn, func(_ ssa.CallInstruction, ci an.CalleeInfo) bool { return ci.Static != nil && ci.Static.Pkg == fn.Pkg && len(ci.Static.Blocks) > 0 }) {
+		for _, call := range an.CallsIn(fn, func(_ ssa.CallInstruction, ci an.CalleeInfo) bool {
+			return ci.Static != nil && ci.Static.Pkg == fn.Pkg && len(ci.Static.Blocks) > 0
+		}) {
 			bodies = append(bodies, call.Common().StaticCallee())
 		}
 		raw, str := false, false
